@@ -124,7 +124,7 @@ def gen_dollar_arg(rng):
     for _ in range(n):
         key = scalar(rng, kk)
         if key not in keys: keys.append(key)
-    return 'T' + ','.join('%s=%s' % (key, scalar(rng, vk)) for key in keys)
+    return rng.choice('TTR') + ','.join('%s=%s' % (key, scalar(rng, vk)) for key in keys)
 
 
 def gen_width(rng, big):
@@ -244,8 +244,8 @@ def refs_of(impl):
 
 
 OPENERS = {'A': rb"<'Array' At 0x(0xP+|\(nil\)) \[", 'l': rb"<'List' At 0x(0xP+|\(nil\)) \[", 't': rb'tuple\(',
-           'T': rb"<'Table' At 0x(0xP+|\(nil\)) \{"}
-CLOSERS = {'A': b']>', 'l': b']>', 't': b')', 'T': b'}>'}
+           'T': rb"<'Table' At 0x(0xP+|\(nil\)) \{", 'R': rb"<'Tree' At 0x(0xP+|\(nil\)) \{"}
+CLOSERS = {'A': b']>', 'l': b']>', 't': b')', 'T': b'}>', 'R': b'}>'}
 
 
 def oracle(case, impl, spec):
@@ -359,7 +359,7 @@ CORPUS = [
     build(0, hx(b'abc'), [(lit('x='), None), conv('%d', 'i1'), (lit(' y='), None), conv('%s', None), ('D', None)]),
     build(7, hx(b'abc'), [(lit('beyond'), None), conv('%c', 'i65')]),     # start position behind the end of the String
     build(0, '', [('D', 'Ai1,i2,i3')]), build(0, '', [('D', 'A')]), build(2, hx(b'xy'), [('D', 'ls6162,s63')]),
-    build(0, '', [('D', 'ti1,s6162,f3ff0000000000000')]), build(0, '', [('D', 'Ti1=s6162,i2=s63')]),
+    build(0, '', [('D', 'ti1,s6162,f3ff0000000000000')]), build(0, '', [('D', 'Ti1=s6162,i2=s63')]), build(0, '', [('D', 'Rs62=i2,s61=i1,s63=i3')]), build(0, '', [('D', 'R')]),
     build(0, '', [conv('%p', 'p0'), (lit('|'), None), conv('%20p', 'pdeadbeef'), conv('%-20p', 'p1')]),
     build(0, '', [conv('%c', 'i0'), (lit('after NUL'), None)]),
     build(0, '', [(lit('100'), None), ('P', None), (lit(' sure$ '), None), ('D', 'i5'), (lit('$'), None)]),
